@@ -432,7 +432,7 @@ impl Prop for C18 {
     fn run(s: &Scn, st: &mut RunStats) -> Result<(), Violation> {
         match &s.mode {
             Mode::Accounting { cfg, dispatchers, schedules, iters, sched, stats_calls } => {
-                let plan = Arc::new(ExecPlan { cfg: cfg.clone(), dispatchers: dispatchers.iter().map(|d| d.iter().map(|i| i.frame.clone()).collect()).collect(), stats_calls: *stats_calls, wait_for: Some(expected_wait(cfg, dispatchers)) });
+                let plan = Arc::new(ExecPlan { via_analyzer: false, cfg: cfg.clone(), dispatchers: dispatchers.iter().map(|d| d.iter().map(|i| i.frame.clone()).collect()).collect(), stats_calls: *stats_calls, wait_for: Some(expected_wait(cfg, dispatchers)) });
                 st.evals = 0;
                 let mut seen_q = false;
                 let mut seen_d = false;
